@@ -109,7 +109,7 @@ def metamorphic(seed, count):
 
     rng = np.random.default_rng(seed)
     bad = []
-    shapes = [(9,), (10,), (5, 6), (8, 3), (7, 7), (4, 5, 3), (6, 2, 5), (3, 3, 4)]
+    shapes = [(9,), (10,), (13,), (5, 6), (8, 3), (7, 7), (13, 4), (3, 17), (4, 5, 3), (6, 2, 5), (3, 3, 4)]
     for t in range(count):
         shape = shapes[t % len(shapes)]
         dim = len(shape)
@@ -118,6 +118,22 @@ def metamorphic(seed, count):
         grid = CartesianGrid([(o, o + n * d) for o, n, d in zip(x0, shape, dx)], list(shape), periodic=True)
         data = rng.standard_normal(shape) + float(rng.choice([0.0, 0.7, -5.0]))
         fails = []
+        try:
+            fails = _metamorphic_case(rng, grid, data, shape, dx, x0, dim)
+        except Exception as exc:  # noqa: BLE001
+            fails = [f"raised {type(exc).__name__}: {str(exc)[:150]}"]
+        if fails:
+            bad.append({"metamorphic": {"seed": seed, "t": t, "shape": list(shape), "dx": dx}, "fails": sorted(set(fails))})
+    return count, bad
+
+
+def _metamorphic_case(rng, grid, data, shape, dx, x0, dim):
+    from pde import CartesianGrid, ScalarField
+
+    from droplets.image_analysis import get_structure_factor
+
+    fails = []
+    if True:
         with warnings.catch_warnings():
             warnings.simplefilter("ignore")
             base = get_structure_factor(ScalarField(grid, data), smoothing=None)
@@ -136,7 +152,7 @@ def metamorphic(seed, count):
             fk = np.fft.fftn(data).ravel()[1:]
             if np.max(np.abs(sf - np.abs(fk) ** 2 / (ntot * (data**2).sum()))) > 1e-12:
                 fails.append("structure factor differs from |F_k|^2 / (N sum f^2)")
-            c = float(rng.choice([-2.5, 0.01, 1e6]))
+            c = float(rng.choice([-2.5, 0.01, 1e6, 2.0**-30, 2.0**-60]))
             if not _same_spectrum(get_structure_factor(ScalarField(grid, c * data), smoothing=None), base):
                 fails.append("not invariant under multiplication by a constant")
             a = int(rng.integers(0, dim))
@@ -166,13 +182,15 @@ def metamorphic(seed, count):
             kz, sz = get_structure_factor(ScalarField(grid, data), smoothing=sm, wave_numbers=wn, add_zero=True)
             if kz[0] != 0 or sz[0] != 1 or not np.array_equal(kz[1:], wn) or np.max(np.abs(sz[1:] - ss)) > 1e-12:
                 fails.append("smoothed variant: add_zero does not prepend exactly (0, 1)")
+            wn0 = np.r_[0.0, wn]
+            k0, s0 = get_structure_factor(ScalarField(grid, data), smoothing=sm, wave_numbers=wn0, add_zero=True)
+            if len(k0) != len(wn0) + 1 or k0[0] != 0 or s0[0] != 1 or not np.array_equal(k0[1:], wn0):
+                fails.append("smoothed variant: add_zero does not prepend (0, 1) when the requested wave numbers contain 0")
             for name, d2, g in (("constant", c * data, grid), ("translation", np.roll(data, sh, axis=a), grid), ("reflection", np.flip(data, axis=a), grid)):
                 _, s2 = get_structure_factor(ScalarField(g, d2), smoothing=sm, wave_numbers=wn)
                 if np.max(np.abs(s2 - ss)) > 1e-9 * max(1e-3, np.abs(ss).max()):
                     fails.append(f"smoothed variant not invariant under {name}")
-        if fails:
-            bad.append({"metamorphic": {"seed": seed, "t": t, "shape": list(shape), "dx": dx}, "fails": sorted(set(fails))})
-    return count, bad
+    return fails
 
 
 def run(out: core.Outcome) -> None:
